@@ -24,7 +24,7 @@ _MIX = {}
 
 # string ids: a precomposed accent, and labels that are NOT in Unicode normal form C (decomposed accent, OHM SIGN, ANGSTROM SIGN):
 # text is data, nothing may normalise it
-_STR_NAMES = ["a", "b", "c", "\u00e9", "e\u0301", "\u2126", "\u212b", "h", "i", "j", "k", "l", "m", "n", "o", "p", "q", "r", "s", "t", "u", "v",
+_STR_NAMES = ["a", "b", "c", "\u00e9", "e\u0301", "\u2126", "\u212b", "C:\\d", '"q"', "o'k", "k", "l", "m", "n", "o", "p", "q", "r", "s", "t", "u", "v",
               "w", "x", "y", "z"]
 
 
@@ -577,6 +577,9 @@ class Impl:
     def op_filert(self, kind, src, dst, target, delim, enc, cm="35"):
         """write_snapshots/write_interactions to a real target, read back with matching arguments"""
         cmk = {} if cm == "35" else {"comments": chr(int(cm))}
+        # the defaults match each other: what is written with ' ' (the writers' default) is also read back with the readers'
+        # default delimiter (None: any run of blanks), every other time
+        rdk = {} if (int(delim) == 0 and len(self.G(src)._node) % 2 == 0 and self.ids != "sepstr") else None
         import tempfile, shutil, gzip, bz2
         G = self.G(src)
         kind, target = int(kind), int(target)
@@ -601,11 +604,11 @@ class Impl:
                     return "caller-header-overwritten"
                 raw = raw[len(head):]
                 with open(p, "rb") as fh:
-                    H = rd(fh, directed=G.is_directed(), delimiter=d, nodetype=nt, timestamptype=int, encoding=en, **cmk)
+                    H = rd(fh, directed=G.is_directed(), nodetype=nt, timestamptype=int, encoding=en, **(rdk if rdk is not None else {"delimiter": d}), **cmk)
             else:
                 wr(G, p, delimiter=d, encoding=en)
                 raw = {0: lambda: open(p, "rb").read(), 1: lambda: gzip.open(p).read(), 2: lambda: bz2.open(p).read()}[target]()
-                H = rd(p, directed=G.is_directed(), delimiter=d, nodetype=nt, timestamptype=int, encoding=en, **cmk)
+                H = rd(p, directed=G.is_directed(), nodetype=nt, timestamptype=int, encoding=en, **(rdk if rdk is not None else {"delimiter": d}), **cmk)
         finally:
             shutil.rmtree(tmp, ignore_errors=True)
         self.slots[int(dst)] = H
@@ -716,7 +719,7 @@ class Impl:
         # attribute names are data: blanks around a name, an empty name, non-ASCII names come back as they were
         import copy
         G2 = copy.deepcopy(G)
-        odd = {"weight ": 0.5, " group": "x", "": 1, "\u00e9t\u00e9": [1, 2], "a": 3}
+        odd = {"weight ": 0.5, " group": "x", "": 1, "\u00e9t\u00e9": [1, 2], "a": 3, "source": "survey", "target": 3, "time": 4, "links": []}
         for n in list(G2._node)[:2]:
             G2._node[n].update(odd)
         G2.graph["note "] = "kept"
@@ -979,6 +982,23 @@ class Impl:
                 continue
             nodes.append([self.C(n), None] if n == root and not (isinstance(n, str) and "_" in n) else self.occ(n))
         acyc = 1 if nx.is_directed_acyclic_graph(DG) else 0
+        # window bounds are compared with the ids, they need not be ids nor integers: a bound half a unit further out selects the same
+        # instants (same DAG) as long as it stays inside [first id, last id], and raises ValueError as soon as it leaves that range
+        ids = G.temporal_snapshots_ids()
+        a0, b0 = tok(a), tok(b)
+        if ids and a0 is not None and b0 is not None and max(abs(a0), abs(b0)) < 2 ** 40:
+            a2 = a0 - 0.5 if a0 - 0.5 >= ids[0] else a0
+            b2 = b0 + 0.5 if b0 + 0.5 <= ids[-1] else b0
+            DG2, src2, tgt2, _, _ = _paths.temporal_dag(G, self.I(int(u)), None if v is None else self.I(v), a2, b2)
+            if sorted(map(str, DG2.edges())) != sorted(map(str, DG.edges())) or sorted(map(str, src2)) != sorted(map(str, src)) \
+                    or sorted(map(str, tgt2)) != sorted(map(str, tgt)):
+                return "fractional-window-bounds-change-the-dag"
+            for a3, b3 in ((ids[0] - 0.5, b0), (a0, ids[-1] + 0.5)):
+                try:
+                    _paths.temporal_dag(G, self.I(int(u)), None if v is None else self.I(v), a3, b3)
+                    return "window-outside-the-ids-accepted"
+                except ValueError:
+                    pass
         return {"edges": sorted(edges), "src": sorted(self.occ(x) for x in src), "tgt": sorted(self.occ(x) for x in tgt),
                 "nodes": sorted(nodes, key=lambda z: (z[0], -10**9 if z[1] is None else z[1])), "acyclic": acyc}
 
@@ -1177,7 +1197,17 @@ class Impl:
     # ---- C18
     def op_compact(self, k, *rest):
         from dynetx.utils import compact_timeslot
-        m = compact_timeslot([int(x) for x in rest[:int(k)]])
+        xs = [int(x) for x in rest[:int(k)]]
+        m = compact_timeslot(xs)
+        # timestamps may be of any ordered type (timestamptype=float, fractions of a day, ...): only their order matters, so the
+        # same values halved (floats) and as strings padded to one width must receive the same ranks (impl-only cross check)
+        for f in (lambda x: x / 2.0, lambda x: x * 0.25 + 0.125, lambda x: "%012d" % (x + 10 ** 9)):
+            try:
+                m2 = compact_timeslot([f(x) for x in xs])
+            except Exception as ex:  # noqa
+                return "other-timestamp-type-raises:" + type(ex).__name__
+            if sorted([x, m2[f(x)]] for x in set(xs)) != sorted([a, b] for a, b in m.items()):
+                return "ranks-depend-on-the-timestamp-type"
         return sorted([a, b] for a, b in m.items())
 
     def op_ptxt(self, kind, dst, cls, delim, comment, k, *rest):
@@ -1218,6 +1248,14 @@ class Impl:
             e0 = sorted((min(a, b), max(a, b), t) for a, b, t in e0); e1 = sorted((min(a, b), max(a, b), t) for a, b, t in e1)
         if e0 != e1:
             return "nodetype-changes-graph"
+        # a comment marker of several characters: the same text with the marker lengthened by '-' (a character that also occurs in
+        # data: negative numbers, the '-' op) parses to the same graph (impl-only cross check)
+        cm = chr(int(comment))
+        if d != "-" and not any((cm + "-") in ln for ln in lines):
+            lines2 = [ln.replace(cm, cm + "-") for ln in lines]
+            H2 = fn(lines2, comments=cm + "-", directed=bool(int(cls)), delimiter=d, nodetype=int, timestamptype=int)
+            if self.dump(H2)["tl"] != self.dump(G0)["tl"] or self.dump(H2)["ev"] != self.dump(G0)["ev"]:
+                return "two-character-comment-marker-changes-graph"
         return "ok"
 
 
